@@ -334,6 +334,25 @@ def graph_case(ctx, program, o, tag):
     for k in ("evaluate", "keys", "cache_exists", "cache_get", "cache_set", "log", "type_validation", "validate"):
         if any(e[0] == k for e in evs):
             ctx.cover("request_kinds_seen", k)
+    # every operation - explain / keys / validate too, which evaluate datasets to choose branches - emits its log
+    # records as requests the pass-through handler sees: one per evaluation of a logging node that completed, none more
+    # than the evaluations of logging nodes that were started
+    from labrea.logging import Logged
+
+    for op in ("evaluate", "explain", "keys", "validate"):
+        G2 = build(program)
+        with Tap() as t2:
+            observe(getattr(G2.root, op), copy.deepcopy(o))
+        done = sum(1 for e in t2.events if e[0] == "evaluate" and e[3] == "return" and isinstance(e[1].evaluatable, Logged))
+        started = sum(1 for e in t2.events if e[0] == "evaluate" and isinstance(e[1].evaluatable, Logged))
+        seen = sum(1 for e in t2.events if e[0] == "log")
+        ctx.evaluations += 1
+        ctx.count("log_requests_accounted", seen)
+        if op != "evaluate" and started:
+            ctx.count("inspections_that_evaluated_logging_nodes")
+        if not (done <= seen <= started):
+            ctx.violation("log-emission-outside-request", f"{op}(): {started} evaluations of logging nodes were started, {done} completed, but the pass-through handler observed {seen} log request(s)", {**W, "op": op})
+            return
     if any(e[2] >= 3 for e in evs):
         ctx.nontrivial(spec_hash([program, o]))
         ctx.sample({"program": program, "options": o, "requests": {k: sum(1 for e in evs if e[0] == k) for k in set(e[0] for e in evs)}}, limit=2)
